@@ -33,7 +33,9 @@ void Runner::viol(const char *prop, const std::string &cls, const std::string &s
   if (out.viols.size() >= 64) return;
   // plans with several caller threads: corruption of a stream, a missing end-of-file or a foreign close is cross-talk between
   // children (C20) as well as a violation of the single-threaded property
-  static const char *const xt[] = { "stdin-corrupted", "stdin-duplicated", "stdin-lost", "no-eof-after-close", "output-corrupted", "wrong-status", "double-close", "foreign-close", "closed-stream-not-reported", "closed-error-on-open-stdin" };
+  static const char *const xt[] = { "stdin-corrupted", "stdin-duplicated", "stdin-lost", "no-eof-after-close", "output-corrupted", "wrong-status", "double-close", "foreign-close", "closed-stream-not-reported", "closed-error-on-open-stdin", "wrong-working-directory", "wrong-program-resolved",
+                                     "environment-differs", "descriptor-inherited", "cwd-changed", "environ-changed", "stream-misconnected", "wrong-error", "signal-mask-changed",
+                                     "child-mask-not-empty", "child-umask-differs" };
   if (tpos.size() > 1 && strcmp(prop, "C20") != 0)
     for (const char *c : xt)
       if (cls == c) { viol("C20", "cross-talk-" + cls, sigrest, detail, op); break; }
@@ -176,6 +178,13 @@ void Runner::setup() {
   n_prog_cwd = k->vfs_add(cwd_node, "prog", VNode::EXEC);
   int csub = k->vfs_add(cwd_node, "sub", VNode::DIR);
   n_prog_sub = k->vfs_add(csub, "prog", VNode::EXEC);
+  int chid = k->vfs_add(cwd_node, ".hidden", VNode::DIR);
+  n_prog_hidden = k->vfs_add(chid, "prog", VNode::EXEC);
+  const std::string cwd_name = k->vfs[(size_t) cwd_node].name;  // copy: vfs_add may reallocate the node vector
+  prog_dotdot = "../" + cwd_name + "/prog";
+  { int d1 = k->vfs_add(cwd_node, "hidden", VNode::DIR); k->vfs_add(d1, "prog", VNode::EXEC); int d2 = k->vfs_add(cwd_node, cwd_name, VNode::DIR); k->vfs_add(d2, "prog", VNode::EXEC); }
+  // decoys: the same relative spellings must not resolve below the child's working directory
+  { int wh = k->vfs_add(work_node, ".hidden", VNode::DIR); k->vfs_add(wh, "prog", VNode::EXEC); int wn = k->vfs_add(work_node, cwd_name, VNode::DIR); k->vfs_add(wn, "prog", VNode::EXEC); int hid = k->vfs_add(work_node, "hidden", VNode::DIR); k->vfs_add(hid, "prog", VNode::EXEC); }
   // descriptors
   for (int fd = 0; fd < 3; fd++)
     if (plan.w.low_fds & (1 << fd)) { k->user_open_at(fd, OFD::TTY); user_fds.insert(fd); user_ofd[fd] = k->fdent(k->caller, fd)->ofd->id; }
@@ -233,7 +242,9 @@ void Runner::setup() {
   tpos.assign((size_t) nthreads, 0);
   for (int i = 0; i < nthreads; i++) {
     Thread *t = k->thread_new([](void *arg) { G->thread_main((int) (intptr_t) arg); }, (void *) (intptr_t) i);
-    t->mask = plan.w.mask & ~((1ull << (SIGKILL - 1)) | (1ull << (SIGSTOP - 1)) | (1ull << 31) | (1ull << 32));
+    uint64_t m = plan.w.mask;
+    if (nthreads > 1 && i > 0) m = (m << (7 * i)) | (m >> (64 - 7 * i));  // different threads, different masks
+    t->mask = m & ~((1ull << (SIGKILL - 1)) | (1ull << (SIGSTOP - 1)) | (1ull << 31) | (1ull << 32));
   }
 }
 
